@@ -114,7 +114,8 @@ def describe(tier):
             "implementation's own biweight_location of the independently computed deviations (DESIGN 4.6; the location is verified by C19); "
             "the 1.4826 * MAD fallback is accepted on exactly symmetric data",
             "Student t tail from scipy.stats.t (trusted third-party numerics)",
-            "bootstrap CI: ci_lo <= ci_hi, finite, identical on a second run under another global RNG state; 'inside the bins' range' is "
+            "bootstrap CI: ci_lo <= ci_hi, finite, identical on a second run under another global RNG state and when only the log2 / "
+            "weights of bins in other segments (same sizes) change; 'inside the bins' range' is "
             "claimed for the plain bootstrap and for the smoothed bootstrap when every weight in the segment is 1 (no noise is added); "
             "the smoothed bootstrap adds Gaussian noise of sd (1 - weight)^0.5 * n^-0.25 by design and may leave the range (counted as a stratum)",
             "skip_low removes the null-coverage bin (log2 -20, depth 0) and nothing else in this alphabet",
@@ -195,7 +196,7 @@ class Table:
                 if segs[j][0] == segs[j + 1][0] and len(segspec[j + 1][1]) >= 1:
                     segs[j][2] += 50
                     segs[j + 1][1] += 50
-        wcycle = WEIGHTS[weights]
+        wcycle = WEIGHTS[weights] if isinstance(weights, str) else list(weights)  # a pattern name, or one weight per bin
         for i, b in enumerate(bins):
             b[5] = wcycle[i % len(wcycle)]
             b[3] = gene_name(genes, i)
@@ -351,14 +352,12 @@ def cases(tier):
     for n in range(1, b["interval_word_len"] + 1):
         for w in ("ones", "cycle", "half"):
             yield {"check": "intervals", "n": n, "weights": w}
-    # 5. selection (layouts)
+    # 5. + 6. selection and bintest, layout by layout (simplest layouts first)
     for lay in layouts(SIZES[tier]):
         if max(sz for _c, sz in lay) <= 5:
             yield {"check": "selection", "layout": lay}
-    # 6. bintest
-    for lay in layouts(SIZES[tier]):
-        if sum(sz for _c, sz in lay) >= 1 and max(sz for _c, sz in lay) <= 5:
-            yield {"check": "bintest", "layout": lay}
+            if sum(sz for _c, sz in lay) >= 1:
+                yield {"check": "bintest", "layout": lay}
     # 7. long segments
     for n in LONG_N[tier]:
         for shape in LONG_SHAPES:
@@ -405,7 +404,7 @@ def bh_feature(ps):
         f.append("zero")
     if 1.0 in ps:
         f.append("one")
-    return "len%s%s" % ("1" if len(ps) == 1 else "2+" if len(ps) <= 6 else "-long", "".join("+" + x for x in f))
+    return "len-%s%s" % ("1" if len(ps) == 1 else "2..6" if len(ps) <= 6 else "long", "".join("+" + x for x in f))
 
 
 def check_bh(ctx, ps, sub):
@@ -613,9 +612,10 @@ def strata_for_table(ctx, T, cfg, models):
         ctx.stratum("bins carry a non-default row index")
 
 
-def expect_value(ctx, stat, got, want, tol, clause, feat, ssub, extra_key=""):
+def expect_value(fails, stat, got, want, tol, clause):
+    """Compare one reported statistic; a mismatch is collected (reported by check_segment)."""
     if got is None or got != got or not close(got, want, tol):
-        ctx.violation(clause, f"segmetrics/{stat}/value{extra_key}/{feat}", expected=want, observed=got, sub=ssub)
+        fails.append((stat, clause, want, got))
         return False
     return True
 
@@ -627,53 +627,67 @@ def check_segment(ctx, T, j, m, row, loc, spread, interval, cfg, feat, ssub):
         if finite:
             ctx.violation(
                 "statistics are computed over exactly the bins overlapping the segment (none: no value)",
-                f"segmetrics/empty-segment-gets-a-value/{'+'.join(sorted(finite))}/{feat}",
+                f"segmetrics/empty-segment-gets-a-value/{feat}",
                 expected="no finite value",
                 observed=finite,
                 sub=ssub,
             )
         return
-    xs, ds = m["xs"], m["ds"]
+    xs = m["xs"]
+    fails = []
     over = "over exactly the bins overlapping the segment"
     if "mean" in loc:
-        expect_value(ctx, "mean", row["mean"], m["mean"], TOL, f"mean of the bins' log2 {over}", feat, ssub)
+        expect_value(fails, "mean", row["mean"], m["mean"], TOL, f"mean of the bins' log2 {over}")
     if "median" in loc:
-        expect_value(ctx, "median", row["median"], m["median"], TOL, f"median of the bins' log2 {over}", feat, ssub)
+        expect_value(fails, "median", row["median"], m["median"], TOL, f"median of the bins' log2 {over}")
     if "p_ttest" in loc:
         if m["t"] is None:
             ctx.stratum("p_ttest undefined (n < 2 or zero variance): left open")
         else:
             t, df = m["t"]
             want = 2.0 * float(sps.t.sf(abs(t), df))
-            expect_value(ctx, "p_ttest", row["p_ttest"], want, TOL, "two-sided one-sample t-test p-value of the bins' log2 against 0", feat, ssub)
+            expect_value(fails, "p_ttest", row["p_ttest"], want, TOL, "two-sided one-sample t-test p-value of the bins' log2 against 0")
     dev = "of the bins' deviations from the segment log2"
     if "stdev" in spread:
-        expect_value(ctx, "stdev", row["stdev"], m["stdev"], TOL, f"standard deviation {dev}", feat, ssub)
+        expect_value(fails, "stdev", row["stdev"], m["stdev"], TOL, f"standard deviation {dev}")
     if "mad" in spread:
-        expect_value(ctx, "mad", row["mad"], m["mad"], TOL, f"MAD (x 1.4826) {dev}", feat, ssub)
+        expect_value(fails, "mad", row["mad"], m["mad"], TOL, f"MAD (x 1.4826) {dev}")
     if "iqr" in spread:
-        expect_value(ctx, "iqr", row["iqr"], m["iqr"], TOL, f"interquartile range {dev}", feat, ssub)
+        expect_value(fails, "iqr", row["iqr"], m["iqr"], TOL, f"interquartile range {dev}")
     if "sem" in spread:
         if m["sem"] is None:
             ctx.stratum("sem undefined (n < 2): left open")
         else:
-            expect_value(ctx, "sem", row["sem"], m["sem"], TOL, f"standard error of the mean {dev}", feat, ssub)
+            expect_value(fails, "sem", row["sem"], m["sem"], TOL, f"standard error of the mean {dev}")
     if "mse" in spread:
-        check_mse(ctx, m, row["mse"], feat, ssub)
+        check_mse(ctx, fails, m, row["mse"], ssub)
     if "bivar" in spread:
-        check_bivar(ctx, m, row["bivar"], feat, ssub)
+        check_bivar(ctx, fails, m, row["bivar"])
     if "pi" in interval:
         lo, hi = row["pi_lo"], row["pi_hi"]
         wlo, whi = SM.percentile_interval(xs, cfg["alpha"])
-        ok = expect_value(ctx, "pi_lo", lo, wlo, TOL, f"prediction interval = the alpha/2 percentile of the bins' log2 {over}", feat, ssub)
-        ok = expect_value(ctx, "pi_hi", hi, whi, TOL, f"prediction interval = the 1 - alpha/2 percentile of the bins' log2 {over}", feat, ssub) and ok
+        ok = expect_value(fails, "pi_lo", lo, wlo, TOL, f"prediction interval = the alpha/2 percentile of the bins' log2 {over}")
+        ok = expect_value(fails, "pi_hi", hi, whi, TOL, f"prediction interval = the 1 - alpha/2 percentile of the bins' log2 {over}") and ok
         if ok and not (lo <= m["median"] + TOL and m["median"] <= hi + TOL):
-            ctx.violation("pi_lo <= median <= pi_hi", f"segmetrics/pi/median-outside/{feat}", expected=[wlo, m["median"], whi], observed=[lo, hi], sub=ssub)
+            ctx.violation("pi_lo <= median <= pi_hi", f"segmetrics/pi/median-outside/{size_class(n)}", expected=[wlo, m["median"], whi], observed=[lo, hi], sub=ssub)
     if "ci" in interval:
-        check_ci(ctx, T, j, m, row["ci_lo"], row["ci_hi"], cfg, feat, ssub)
+        check_ci(ctx, fails, T, j, m, row["ci_lo"], row["ci_hi"], cfg, ssub)
+    # One wrong formula gives one key per size class; several statistics of one segment off at once point at the
+    # bins that were used, and are reported once, classified by geometry / skip_low.
+    if len({f[0] for f in fails}) >= 3:
+        ctx.violation(
+            "each requested statistic is computed over exactly the bins overlapping the segment (several statistics of one segment are off together)",
+            f"segmetrics/several-statistics/value/{feat}",
+            expected={f[0]: f[2] for f in fails},
+            observed={f[0]: f[3] for f in fails},
+            sub=ssub,
+        )
+    else:
+        for stat, clause, want, got in fails:
+            ctx.violation(clause, f"segmetrics/{stat}/value/{size_class(n)}", expected=want, observed=got, sub=ssub)
 
 
-def check_mse(ctx, m, got, feat, ssub):
+def check_mse(ctx, fails, m, got, ssub):
     want = m["mse"]
     distinguishing = not close(m["var_ds"], want, TOL)
     if distinguishing:
@@ -686,19 +700,20 @@ def check_mse(ctx, m, got, feat, ssub):
     elif m["n"] >= 2 and distinguishing and got is not None and close(got, m["var_ds"], TOL):
         key = "segmetrics/mse/variance-of-the-deviations-reported"
     else:
-        key = f"segmetrics/mse/value/{feat}"
+        fails.append(("mse", clause, want, got))
+        return
     ctx.violation(clause, key, expected=want, observed=got, sub={**ssub, "deviations": m["ds"][:12], "variance_of_deviations": m["var_ds"]})
 
 
-def check_bivar(ctx, m, got, feat, ssub):
+def check_bivar(ctx, fails, m, got):
     ds = m["ds"]
     clause = "biweight midvariance of the bins' deviations from the segment log2"
     if got is None or got != got:
-        ctx.violation(clause, f"segmetrics/bivar/value/{feat}", expected="a number", observed=got, sub=ssub)
+        fails.append(("bivar", clause, "a number", got))
         return
     if m["const"]:
         if abs(got) > TOL:
-            ctx.violation(clause + " (0 for identical bins)", f"segmetrics/bivar/value/{feat}", expected=0.0, observed=got, sub=ssub)
+            fails.append(("bivar", clause + " (0 for identical bins)", 0.0, got))
         return
     centre = ctx.call(D.biweight_location, np.array(ds, dtype=float))
     if isinstance(centre, Exc) or not math.isfinite(float(centre)):
@@ -715,32 +730,33 @@ def check_bivar(ctx, m, got, feat, ssub):
     else:
         ctx.stratum("bivar: asymmetric deviations (formula required)")
     if not ok:
-        ctx.violation(clause, f"segmetrics/bivar/value/{feat}", expected={"formula": mv["values"], "mad_fallback": mv["mad_fallback"]}, observed=got, sub=ssub)
+        fails.append(("bivar", clause, {"formula": mv["values"], "mad_fallback": mv["mad_fallback"]}, got))
 
 
-def check_ci(ctx, T, j, m, lo, hi, cfg, feat, ssub):
+def check_ci(ctx, fails, T, j, m, lo, hi, cfg, ssub):
     tag = "smoothed" if cfg["smoothed"] else "plain"
+    size = size_class(m["n"])
     if lo is None or hi is None or not (math.isfinite(lo) and math.isfinite(hi)):
-        ctx.violation("a bootstrap confidence interval is reported", f"segmetrics/ci/not-finite/{tag}/{feat}", expected="two finite numbers", observed=[lo, hi], sub=ssub)
+        fails.append(("ci", "a bootstrap confidence interval is reported for a segment that has bins", "two finite numbers", [lo, hi]))
         return
     if lo > hi:
-        ctx.violation("ci_lo <= ci_hi", f"segmetrics/ci/lo-above-hi/{tag}/{feat}", expected="ci_lo <= ci_hi", observed=[lo, hi], sub=ssub)
+        ctx.violation("ci_lo <= ci_hi", f"segmetrics/ci/lo-above-hi/{tag}/{size}", expected="ci_lo <= ci_hi", observed=[lo, hi], sub=ssub)
     wts = [T.bins[i][5] for i in T.seg_bins(j, cfg["skip_low"])]
     if cfg["bootstraps"] <= 2.0 / cfg["alpha"]:
         ctx.stratum("ci: fewer bootstraps than 2/alpha requested")
+    span = max(abs(m["lo"]), abs(m["hi"]), 1.0)
+    outside = lo < m["lo"] - TOL * span or hi > m["hi"] + TOL * span
     if cfg["smoothed"] and any(w != 1.0 for w in wts):
-        span = max(abs(m["lo"]), abs(m["hi"]), 1.0)
-        if lo < m["lo"] - TOL * span or hi > m["hi"] + TOL * span:
+        if outside:
             ctx.stratum("ci: smoothed bootstrap leaves the bins' range (by design; range clause not claimed)")
         else:
             ctx.stratum("ci: smoothed bootstrap with noise stays inside the range (not claimed)")
         return
     ctx.stratum("ci: range clause applied (%s)" % ("smoothed, all weights 1" if cfg["smoothed"] else "plain bootstrap"))
-    span = max(abs(m["lo"]), abs(m["hi"]), 1.0)
-    if lo < m["lo"] - TOL * span or hi > m["hi"] + TOL * span:
+    if outside:
         ctx.violation(
             "the bootstrap confidence interval lies inside the range of the segment's bins",
-            f"segmetrics/ci/outside-bins-range/{tag}/{feat}",
+            f"segmetrics/ci/outside-bins-range/{tag}/{size}",
             expected=[m["lo"], m["hi"]],
             observed=[lo, hi],
             sub=ssub,
@@ -807,15 +823,36 @@ def run_subsets(case, ctx):
     ctx.sample("subsets", {"table": T.spec})
 
 
+OTHER_WEIGHT = {1.0: 0.5, 0.5: 0.2, 0.2: 1.0}
+
+
 def run_intervals(case, ctx):
     for word in multiset_words(case["n"]):
-        for mode in ("wmean",):
-            T = Table(focus_spec(word), weights=case["weights"], mode=mode)
-            for alpha in ALPHAS:
-                for boots in BOOTS:
-                    for smoothed in (False, True):
-                        cfg = {"alpha": alpha, "bootstraps": boots, "smoothed": smoothed, "skip_low": False}
-                        check_segmetrics(ctx, T, [], [], INTERVAL, cfg, {"word": word}, rerun=True)
+        T = Table(focus_spec(word), weights=case["weights"], mode="wmean")
+        # the same focus segment (bins 1..n) between other log2 values and other weights in the neighbouring segments
+        w_alt = [b[5] if 1 <= i <= len(word) else OTHER_WEIGHT[b[5]] for i, b in enumerate(T.bins)]
+        T_alt = Table([[0, [-1.0]], [0, list(word)], [0, [0.0, 1.0]]], weights=w_alt, mode="wmean")
+        for alpha in ALPHAS:
+            for boots in BOOTS:
+                for smoothed in (False, True):
+                    cfg = {"alpha": alpha, "bootstraps": boots, "smoothed": smoothed, "skip_low": False}
+                    cols = check_segmetrics(ctx, T, [], [], INTERVAL, cfg, {"word": word}, rerun=True)
+                    if boots != 10 or cols is None:
+                        continue
+                    cols2 = check_segmetrics(ctx, T_alt, [], [], INTERVAL, cfg, {"word": word, "variant": "neighbouring segments changed"})
+                    if cols2 is None:
+                        continue
+                    ctx.stratum("ci/pi: same segment re-evaluated with different neighbouring bins")
+                    for c in ("ci_lo", "ci_hi", "pi_lo", "pi_hi"):
+                        if cols[c][1] != cols2[c][1]:
+                            ctx.violation(
+                                "each statistic is computed over exactly the bins overlapping the segment (log2 and weights of other bins do not matter)",
+                                f"segmetrics/{c[:2]}/depends-on-bins-outside-the-segment/{'smoothed' if smoothed else 'plain'}",
+                                expected=cols[c][1],
+                                observed=cols2[c][1],
+                                sub={"word": word, "table": T.spec, "other_table": T_alt.spec, "config": cfg, "column": c, "segment": 1},
+                            )
+                            break
     ctx.sample("intervals", {"word": multiset_words(case["n"])[-1], "weights": case["weights"]})
 
 
